@@ -115,6 +115,23 @@ theorem fcCell_fold_decompose (cp nx : Nat) (hs : fcSpecial cp = false) (h3 : ¬
         have := (SafeC.Fold.allBelow_spec _ _).mp low_stable (towfcSingle cp).2 (by omega)
         exact (by simpa using this : decompose1 (towfcSingle cp).2 = [(towfcSingle cp).2]).symm
 
+/-- the string has a capital sigma directly in front of a space -/
+def sigmaFinal : List Nat → Bool
+  | [] => false
+  | cp :: rest => (cp == 0x3a3 && iswspace (rest.headD 0)) || sigmaFinal rest
+
+/-- string level: `wcsfc_s` = the decomposition pass (`flatMap decompose1`, cf. `decLoop_spec`) over the concatenated `towfc_s` -/
+theorem fcPure_fold_decompose : ∀ {src : List Nat}, (∀ c ∈ src, fcSpecial c = false) → sigmaFinal src = false →
+    fcPure src = (src.flatMap fun c => (towfcCore c).2).flatMap decompose1 := by
+  intro src
+  induction src with
+  | nil => intro _ _; rfl
+  | cons cp rest ih =>
+    intro hs h3
+    simp only [sigmaFinal, Bool.or_eq_false_iff, Bool.and_eq_false_iff, beq_eq_false_iff_ne, ne_eq] at h3
+    rw [fcPure, fcCell_fold_decompose cp _ (hs cp (by simp)) (by intro hh; rcases h3.1 with h | h <;> simp_all),
+      ih (fun c hc => hs c (by simp [hc])) h3.2, List.flatMap_cons, List.flatMap_append]
+
 /-- the exceptions are real -/
 theorem fcCell_special {cp : Nat} (hs : fcSpecial cp = true) (nx : Nat) :
     fcCell cp nx = [cp] ∧ (towfcCore cp).2.flatMap decompose1 ≠ [cp] ∧ (towfcCore cp).2 ≠ [cp] := by
